@@ -138,8 +138,8 @@ func init() {
 		Harnesses: []HarnessSpec{
 			{Name: "VerifH_readAll", Covers: []string{"within", "at-limit", "over"}},
 			{Name: "VerifH_writeAll", Covers: []string{"within", "over"}},
-			{Name: "VerifH_grpc_recv", Covers: []string{"delivered", "delivered-decompressed", "over-limit", "over-limit-after-decompression", "truncated", "stats-inpayload"}},
-			{Name: "VerifH_grpc_send", Covers: []string{"sent", "sent-above-receive-limit", "refused", "stats-outpayload"}},
+			{Name: "VerifH_grpc_recv", Covers: []string{"delivered", "delivered-decompressed", "over-limit", "over-limit-after-decompression", "truncated", "stats-inpayload", "undecodable"}},
+			{Name: "VerifH_grpc_send", Covers: []string{"sent", "sent-above-receive-limit", "refused", "stats-outpayload", "compressed", "compressed-empty"}},
 			{Name: "VerifH_proto_wire", Covers: []string{"over-limit", "prefix>=2^63", "message"}},
 			{Name: "VerifH_http_recv_body", Covers: []string{"upload", "multi-chunk", "empty-upload"}},
 			{Name: "VerifH_http_recv_stream", Covers: []string{"clean-eof", "truncated", "empty-stream"}},
